@@ -48,6 +48,34 @@ def adjacent_pairs(rng, info, d, docs):
             f2 = p + sl.size
             s2 = ReplaceStep(f2, max(f2, min(size1, f2 + rng.randint(0, 2))), gen.random_slice(rng, docs))
         out.append((s1, s2))
+    # a deletion that runs from inside one node to an equally deep position inside a later sibling (the two nodes are
+    # joined), with an insertion typed at its start before or after it
+    for _ in range(4):
+        p = rng.choice(al)
+        rp = d.resolve(p)
+        if rp.depth == 0:
+            continue
+        par = rp.node(rp.depth - 1)
+        idx = rp.index(rp.depth - 1)
+        if idx + 1 >= par.child_count:
+            continue
+        j = rng.randint(idx + 1, par.child_count - 1)
+        sib = par.child(j)
+        if sib.is_leaf or sib.is_text:
+            continue
+        start_sib = rp.pos_at_index(j, rp.depth - 1) if hasattr(rp, "pos_at_index") else None
+        if start_sib is None:
+            continue
+        inner = [0]
+        for k in range(sib.child_count):
+            inner.append(inner[-1] + sib.child(k).node_size)
+        q = start_sib + 1 + rng.choice(inner)
+        t1 = schema.text(gen.gen_text(rng, 1, 2, plain=True))
+        ins = Slice(Fragment.from_(t1), 0, 0)
+        if rng.random() < 0.5:
+            out.append((ReplaceStep(p, q, Slice.empty), ReplaceStep(p, p, ins)))
+        else:
+            out.append((ReplaceStep(p, p, ins), ReplaceStep(p + t1.node_size, q + t1.node_size, Slice.empty)))
     present = []
     d.descendants(lambda n, p, par, i: present.extend(n.marks) or True)
     for _ in range(6):
